@@ -57,7 +57,7 @@ def h3_extwire():
     return {
         "name": "h3_extwire", "src": "h3_extwire.c",
         "env": ["ctx", "hash_model", "list_wrap", "fmt_stub"],
-        "tus": ["hashchain", "hash", "tlv", "tlv_element", "fast_tlv"],
+        "tus": ["hashchain", "hash", "tlv_element", "fast_tlv"],
         "unwind": 4, "object_bits": 10, "timeout": 120, "mem_gb": 8,
         # the one indirect call (sig->removeCalAuthAndPublication) would otherwise fan out over every int f(pointer) in the linked TUs; the restriction is an assertion
         "restrict_fp": ["KSI_Signature_replacePublicationRecord.function_pointer_call.1/c08_removeCalAuthAndPublication"],
